@@ -178,6 +178,11 @@ func (c *CheckCtx) extractPrograms(d *Driver, standalone bool) (map[string][]str
 			if err != nil {
 				return nil, err
 			}
+			if cr.Note == "deadlock" {
+				// the scheduler's own lock picture: the only goroutine waits for a lock it holds itself.
+				// Not an extraction problem: the real executions below are judged (P_Completed).
+				return nil, fmt.Errorf("solo execution of %s blocks on a lock it already holds (%v)", concKinds[i], opsOf(cr.Log))
+			}
 			if cr.Note != "" {
 				return nil, inconclusive("solo recording of %s ended with %q", concKinds[i], cr.Note)
 			}
@@ -220,7 +225,7 @@ func (c *CheckCtx) modelCheckConc(progs map[string][]string, calls []concCall, o
 	}
 	b := concGenModule("MC_Conc_gen", "GoSnapsConc", progs, calls, order)
 	os.WriteFile(filepath.Join(dir, "MC_Conc_gen.tla"), []byte(b), 0o644)
-	cfg := "SPECIFICATION Spec\n" + concConstants + "INVARIANTS Serialisable NeverTorn\nCHECK_DEADLOCK FALSE\n"
+	cfg := "SPECIFICATION Spec\n" + concConstants + "INVARIANTS Serialisable NeverTorn NoDeadlock\nCHECK_DEADLOCK FALSE\n"
 	os.WriteFile(filepath.Join(dir, "MC_Conc.cfg"), []byte(cfg), 0o644)
 	dump := filepath.Join(dir, "cex.json")
 	res, err := runTLC(dir, "MC_Conc_gen.tla", "MC_Conc.cfg", 4, 10*time.Minute, "-dumpTrace", "json", dump)
